@@ -23,7 +23,7 @@ func TestProp(t *testing.T)   { vkit.RunAll(t) }
 func TestReplay(t *testing.T) { vkit.RunReplay(t) }
 
 func init() {
-	vkit.Register("regions", vkit.N{Quick: 2400, Thorough: 120000}, genCase, runCase)
+	vkit.Register("regions", vkit.N{Quick: 1600, Thorough: 100000}, genCase, runCase)
 }
 
 // ---------------------------------------------------------------- case data
@@ -149,7 +149,7 @@ func genCase(t *rapid.T) Case {
 	nOps := rapid.IntRange(5, 60).Draw(t, "nOps")
 	for i := 0; i < nOps; i++ {
 		var op Op
-		op.Kind = rapid.SampledFrom([]string{"new", "new", "same", "same", "tweak", "tweak", "tweak", "range", "range", "swallow", "remove", "remove", "removeAbsent"}).Draw(t, "kind")
+		op.Kind = rapid.SampledFrom([]string{"new", "new", "same", "same", "tweak", "tweak", "tweak", "rerange", "rerange", "rerange", "range", "range", "swallow", "remove", "remove", "removeAbsent"}).Draw(t, "kind")
 		op.Pick = rapid.IntRange(0, 1000).Draw(t, "pick")
 		switch op.Kind {
 		case "new", "range", "removeAbsent":
@@ -165,6 +165,11 @@ func genCase(t *rapid.T) Case {
 				op.Body.Peers = append(op.Body.Peers, Peer{Pending: rapid.IntRange(0, 2).Draw(t, "tpending") == 0})
 			}
 			op.Keep = rapid.Bool().Draw(t, "keepLeader")
+		case "rerange":
+			// same id, same peers/leader/pending (a merge or split as TiKV reports it): only the range moves.
+			// End encodes the shape: L = absorb the left neighbour, R = absorb the right one, B = both,
+			// S = shrink (give up the tail), H = shrink from the head
+			op.End = rapid.SampledFrom([]string{"L", "L", "R", "B", "S", "H"}).Draw(t, "shape")
 		case "swallow":
 			op.Pick = rapid.IntRange(0, 1000).Draw(t, "pick2")
 			op.Body = genBody(t)
@@ -371,6 +376,61 @@ func runCase(c Case) (vkit.Info, error) {
 			roleChangeSameRange = true
 			info.Class("tweak")
 			touched = []string{r.start, r.end}
+		case "rerange":
+			if len(m.regs) == 0 {
+				continue
+			}
+			k := op.Pick % len(m.regs)
+			old := m.regs[k]
+			ns, ne := old.start, old.end
+			switch op.End {
+			case "L", "B":
+				if k > 0 {
+					ns = m.regs[k-1].start
+				}
+				if op.End == "B" && k+1 < len(m.regs) {
+					ne = m.regs[k+1].end
+				}
+			case "R":
+				if k+1 < len(m.regs) {
+					ne = m.regs[k+1].end
+				}
+			case "S", "H":
+				// a key strictly inside the range, if the key table has one
+				lo := sort.SearchStrings(keyTable, old.start)
+				if lo < len(keyTable) && keyTable[lo] == old.start {
+					lo++
+				}
+				hi := len(keyTable)
+				if old.end != "" {
+					hi = sort.SearchStrings(keyTable, old.end)
+				}
+				if lo < hi {
+					mid := keyTable[lo+(hi-lo)/2]
+					if op.End == "S" {
+						ne = mid
+					} else {
+						ns = mid
+					}
+				}
+			}
+			if ns == old.start && ne == old.end {
+				continue
+			}
+			r := &mreg{id: old.id, start: ns, end: ne, body: old.body,
+				info: old.info.Clone(core.WithStartKey([]byte(ns)), core.WithEndKey([]byte(ne)))}
+			ov := bc.PutRegion(r.info)
+			disp := m.put(r)
+			if err := sameSet(ov, disp); err != nil {
+				return info, fmt.Errorf("op %d rerange(%s): returned overlaps: %v", i, op.End, err)
+			}
+			if len(disp) > 0 {
+				displacedByRange = true
+				info.Class("merge-same-peers")
+			} else {
+				info.Class("split-same-peers")
+			}
+			touched = []string{r.start, r.end, old.start, old.end}
 		case "range":
 			if len(m.regs) == 0 {
 				continue
